@@ -264,6 +264,17 @@ def clashing_variants(rnd, c0, call):
             if not spec[2]:
                 continue
             yield "undeclared-shared-gate-same-label", dict(call, sub_spec=spec, outputs_mapping={k: v for k, v in om.items() if k != host_lab})
+    # a gate of the replaced region that is an output of the whole circuit is *not* declared, and the replacement owns
+    # an inner gate of that very label computing something else (its declared outputs stay equivalent)
+    if len(om) >= 2 and ins:
+        for host_lab in [l for l in om if l in c0.outputs][:2]:
+            sub_lab = om[host_lab]
+            if host_lab in ins or any(host_lab == g[0] for g in gates):
+                continue
+            for t in ("NOT", "IFF"):
+                spec = (list(ins), list(gates) + [(host_lab, t, [ins[0]])], [o for o in outs if o != sub_lab])
+                if spec[2]:
+                    yield "undeclared-circuit-output-recreated-differently", dict(call, sub_spec=spec, outputs_mapping={k: v for k, v in om.items() if k != host_lab})
 
 
 def unit(p, item, tier, seed):
